@@ -31,9 +31,10 @@ from replicat.backends.base import Backend
 
 
 class Custom(Backend, short_name='CB'):
-    def __init__(self, connection_string, *, port=8080, secure=False, label='dflt', ratio=1.5, token):
+    def __init__(self, connection_string, *, port=8080, secure=False, label='dflt', ratio=1.5, token,
+                 verify: bool = True, tag: str = 'x', retries: int = 3):
         self.connection_string = connection_string
-        self.kw = dict(port=port, secure=secure, label=label, ratio=ratio, token=token)
+        self.kw = dict(port=port, secure=secure, label=label, ratio=ratio, token=token, verify=verify, tag=tag, retries=retries)
 
     def exists(self, name): return False
     def upload(self, name, data): pass
@@ -153,6 +154,10 @@ BACKENDS = {
         'label#2': ({'cli': '17', 'env': 'true', 'profile': '1.5', 'default': 'x y'}, 'dflt'),
         'port#2': ({'cli': 'none', 'env': '7', 'profile': 'eight', 'default': '9.5'}, 8080),
         'ratio#2': ({'cli': '3', 'env': 'false', 'profile': '2', 'default': 'r'}, 1.5),
+        # annotated options: the annotation must not change how a value from one particular source is read
+        'verify': ({'cli': 'false', 'env': 'true', 'profile': 'false', 'default': 'none'}, True),
+        'tag': ({'cli': '12', 'env': 'true', 'profile': '1.5', 'default': 'plain'}, 'x'),
+        'retries': ({'cli': 'none', 'env': '7', 'profile': 'many', 'default': '2.5'}, 3),
     }, 'CB'),
 }
 FILL = {'key_id': 'fill-id', 'access_key': 'fill-ak', 'region': 'fill-reg', 'host': 'fill-host', 'application_key': 'fill-app',
